@@ -3,6 +3,7 @@ CONSTANTS
   PartialUsecAsterisks = FALSE
   NegOffsetFix = TRUE
   CopyKeepsPrecision = TRUE
+  ForeignTzNorm = "keep"
   Years <- YearsS
   Months <- MonthsS
   DaysOfMonth <- DomS
